@@ -109,6 +109,17 @@ if mode.endswith("_limit"):
         except BaseException as e:      # noqa: B902
             os.write(1, ("RAISED %r\n" % (e,)).encode())
     os._exit(0)
+if mode == "receive_script":
+    # the whole receive script (its real main()): every file-system boundary from its start to its end is a crash point
+    import skepticoin.scripts.receive as R
+    R.configure_logging_from_args = lambda a: None
+    R.print = lambda *a, **k: None
+    sys.argv = ["skepticoin-receive", "for the shop"]
+    armed[0] = True
+    R.main()
+    armed[0] = False
+    print("BOUNDARIES %d" % count[0])
+    sys.exit(0)
 if mode == "wallet":
     import skepticoin.wallet as W
     w = W.Wallet.load(real_open("new_wallet_source.json"))
